@@ -257,6 +257,7 @@ func (l *commitLog) append(segment *segment, ms []byte, entries []*entry) ([]int
 	if err := segment.WriteMessageSet(ms, entries); err != nil {
 		return nil, err
 	}
+	crashPoint("log.append.written")
 	var (
 		lastLeaderEpoch = l.leaderEpochCache.LastLeaderEpoch()
 		offsets         = make([]int64, len(entries))
@@ -272,6 +273,7 @@ func (l *commitLog) append(segment *segment, ms []byte, entries []*entry) ([]int
 		}
 		offsets[i] = entry.Offset
 	}
+	crashPoint("log.append.done")
 	return offsets, nil
 }
 
@@ -490,11 +492,13 @@ func (l *commitLog) close() error {
 	if err := l.checkpointHW(); err != nil {
 		return err
 	}
+	crashPoint("log.close.hw")
 	close(l.closed)
 	for _, segment := range l.segments {
 		if err := segment.Close(); err != nil {
 			return err
 		}
+		crashPoint("log.close.segment")
 	}
 	return nil
 }
@@ -555,6 +559,7 @@ func (l *commitLog) Truncate(offset int64) error {
 		if err := l.segments[i].Delete(); err != nil {
 			return err
 		}
+		crashPoint("log.truncate.deleted")
 		deleted++
 	}
 
@@ -569,6 +574,7 @@ func (l *commitLog) Truncate(offset int64) error {
 			if err := seg.Delete(); err != nil {
 				return err
 			}
+			crashPoint("log.truncate.target-deleted")
 			deleted++
 		}
 	} else {
@@ -590,6 +596,7 @@ func (l *commitLog) Truncate(offset int64) error {
 		if err != nil {
 			return err
 		}
+		crashPoint("log.truncate.created")
 		for ms, e, err := ss.Scan(); err == nil; ms, e, err = ss.Scan() {
 			if ms.Offset() < offset {
 				if err := newSegment.WriteMessageSet(ms, []*entry{e}); err != nil {
@@ -599,9 +606,11 @@ func (l *commitLog) Truncate(offset int64) error {
 				break
 			}
 		}
+		crashPoint("log.truncate.copied")
 		if err = newSegment.Replace(seg); err != nil {
 			return err
 		}
+		crashPoint("log.truncate.replaced")
 		segments[idx] = newSegment
 	}
 	activeSegment := segments[len(segments)-1]
@@ -691,6 +700,7 @@ func (l *commitLog) split(oldActiveSegment *segment) error {
 	if err != nil {
 		return err
 	}
+	crashPoint("log.split.created")
 	// Do a CAS on the active segment to ensure no other threads have replaced
 	// it already. If this fails, it means another thread has already replaced
 	// it, so delete the new segment and return ErrSegmentExists.
@@ -745,6 +755,7 @@ func (l *commitLog) Clean() error {
 	if err != nil {
 		return err
 	}
+	crashPoint("log.clean.cleaned")
 	l.mu.Lock()
 	newSegments := l.segments
 	if len(newSegments) > len(oldSegments) {
@@ -762,6 +773,7 @@ func (l *commitLog) Clean() error {
 	} else {
 		err = l.leaderEpochCache.ClearEarliest(l.segments[0].BaseOffset)
 	}
+	crashPoint("log.clean.done")
 	l.mu.Unlock()
 	return err
 }
@@ -825,5 +837,7 @@ func (l *commitLog) checkpointHW() error {
 		r    = strings.NewReader(strconv.FormatInt(hw, 10))
 		file = filepath.Join(l.Path, hwFileName)
 	)
+	defer crashPoint("log.hw.after")
+	crashPoint("log.hw.before")
 	return atomic_file.WriteFile(file, r)
 }
